@@ -2,7 +2,7 @@ ALL_IDS = ["C%02d" % i for i in range(1, 21)]
 NOT_BUILT_REASON = {}
 # properties registered in MANIFEST.json (their checks are silent on the unchanged tree and validated
 # against breaks); everything else is listed under not_applicable with the reason "not built yet".
-CLAIMED = ["C01", "C02", "C03", "C04", "C05", "C06", "C07", "C08", "C09", "C10", "C11", "C12", "C13", "C14", "C15", "C16", "C17", "C18", "C19"]
+CLAIMED = ["C01", "C02", "C03", "C04", "C05", "C06", "C07", "C08", "C09", "C10", "C11", "C12", "C13", "C14", "C15", "C16", "C17", "C18", "C19", "C20"]
 
 ENGINES = [
     {"name": "config-oracle", "path": "harness/config", "serves_properties": ["C08"],
@@ -23,6 +23,8 @@ ENGINES = [
      "kind_free_text": "bytes written by the real sendOpen/sendKeepalive/sendUpdate/sendWithdraw decoded by an independent RFC 4271 codec; hostile OPEN inputs (valid, structure-aware mutations, random) fed to the real readOpen under recover + watchdog + sentinel bytes"},
     {"name": "bgp-session", "path": "harness/native/c17_test.go", "serves_properties": ["C17"],
      "kind_free_text": "scripted in-process BGP peer on a loopback TCP listener with fault scripts (drops idle / between / inside messages, stalls, wrong ASN, held OPEN); table comparison with the last requested route set, under the race detector"},
+    {"name": "race-replay", "path": "harness/controller/c20_test.go + harness/speaker/c20_test.go", "serves_properties": ["C20"],
+     "kind_free_text": "real goroutines through the real k8s.Listener + concurrent status fetchers under the Go race detector; serial replay of the effective handler order (logged inside the Listener lock) on fresh instances"},
     {"name": "conversion", "path": "harness/controllers/c18_test.go", "serves_properties": ["C18"],
      "kind_free_text": "toConfig on all pool permutations x shuffles x repetitions; real Config/Pool reconcilers on a fake client counting handler calls"},
     {"name": "debounce", "path": "harness/frr/c19_test.go + harness/controllers/c19_test.go", "serves_properties": ["C19"],
@@ -166,5 +168,12 @@ META = {
         "design_ref": "DESIGN.md 2/C19",
         "note": "Eventually is decided as bounded progress (100x the interval; inconclusive if the canary saw starvation). reloadValidator's status file path is a constant and is not exercised.",
         "technique": "runtime monitoring: offline trace checker over recorded submit/apply events with injected reload failures + race detector",
+    },
+    "C20": {
+        "engine": "race-replay",
+        "text": "4-6 driver goroutines deliver service / pool (controller) and service / configuration / node (speaker) events through the real k8s.Listener while fetchers call CountersForPool, Announce.GetStatus (reading the advertisements the way the Layer2StatusReconciler does) and PeersForService (iterating the set) and consumers drain the callbacks; the Go race detector watches; panics and deadlocks are caught; the effective handler order, logged from inside the Listener lock, is replayed serially on fresh instances and allocator state, status writes, layer-2 announcements, sessions and PeersForService must be equal.",
+        "design_ref": "DESIGN.md 2/C20",
+        "note": "Race-detector silence covers the executed interleavings only. Deadlock = no progress within 120 s (inconclusive, with goroutine dump).",
+        "technique": "sanitizer (Go race detector) + serial replay in recorded lock order",
     },
 }
